@@ -783,6 +783,9 @@ func (g *c18Gen) reqOutside() {
 func genC18Scenario(rng *Rng, style int, long bool) (string, bool) {
 	g := &c18Gen{rng: rng, bank: 0x1000}
 	g.cap = rng.Pick(1, 2, 2, 3, 4, 8)
+	if style == 5 {
+		g.cap = rng.Pick(1, 1, 2)
+	}
 	g.nb = rng.Pick(3, 5)
 	g.own = rng.Range(1, g.nb-1)
 	k := rng.Pick(1, 2, 4)
@@ -868,6 +871,33 @@ func genC18Scenario(rng *Rng, style int, long bool) (string, bool) {
 				} else {
 					g.add("t")
 				}
+			}
+		case 5: // control port rarely drained: drain / restart acknowledgements pile up while traffic goes on
+			switch {
+			case x < 14:
+				g.reqOutside()
+			case x < 24:
+				g.reqInside(false)
+			case x < 52:
+				g.add("t")
+			case x < 64:
+				if !drained {
+					g.add(fmt.Sprintf("cd %d", rng.Range(1, 3)))
+					drained = true
+				} else {
+					g.add(fmt.Sprintf("cr %d", rng.Range(1, 3)))
+					drained = false
+				}
+			case x < 74:
+				g.add(fmt.Sprintf("x %s %d", c18Pick(rng, "i", "o"), rng.Intn(8)))
+			case x < 84:
+				g.add(fmt.Sprintf("f %s %d", c18Pick(rng, "i", "o"), rng.Range(1, 4)))
+			case x < 92:
+				g.add(fmt.Sprintf("r %s %d", c18Pick(rng, "i", "o"), rng.Range(1, 4)))
+			case x < 96:
+				g.add("dc 1")
+			default:
+				g.add("t")
 			}
 		case 4: // many requests, replies in random order
 			switch {
@@ -1234,13 +1264,13 @@ func runC18(r *Run, rng *Rng, replay string) {
 		nr, nl, nm = 30000, 1000, 3000
 	}
 	for i := 0; i < nr; i++ {
-		style := rng.Pick(0, 1, 2, 3, 3, 4)
+		style := rng.Pick(0, 1, 2, 3, 3, 4, 5, 5)
 		l, closed := genC18Scenario(rng, style, false)
 		r.Count(fmt.Sprintf("rdma.style%d", style))
 		runC18Scenario(r, l, closed)
 	}
 	for i := 0; i < nl; i++ {
-		l, closed := genC18Scenario(rng, rng.Pick(0, 1, 2, 3, 4), true)
+		l, closed := genC18Scenario(rng, rng.Pick(0, 1, 2, 3, 4, 5), true)
 		r.Count("rdma.long")
 		runC18Scenario(r, l, closed)
 	}
